@@ -148,6 +148,19 @@ def op_call(rng, name):
 
 def gen_vrp(rng, big):
     case = {"kind": "vrp", **gen_problem(rng, big)}
+    if rng.random() < 0.03:
+        # excluded region (ids are not the 1-based positions): the real code is run, the outcome only recorded
+        how = rng.choice(["shuffled", "offset", "duplicate"])
+        ids = [c[0] for c in case["customers"]]
+        if how == "shuffled":
+            rng.shuffle(ids)
+        elif how == "offset":
+            ids = [i + 10 for i in ids]
+        else:
+            ids[-1] = ids[0]
+        for c, i in zip(case["customers"], ids):
+            c[0] = i
+        case["excluded"] = "ids_" + how
     has_multi = any(c[7] > 1 for c in case["customers"])
     if rng.random() < 0.3:
         case["script"] = gen_script(rng, has_multi, rng.randint(4, 16 if big else 10))
@@ -452,6 +465,10 @@ def judge_js(ctx, case, o, reply):
 def judge_vrp(ctx, case, o, reply, ids, final_id):
     top = "solve_vrptw" if "script" not in case else "operator_script"
     rep = {"case": case}
+    if case.get("excluded"):
+        ctx.count(f"excluded_region:{case['excluded']}:{err_kind(o)}")
+        ctx.cov["excluded_region_hits"] = ctx.cov.get("excluded_region_hits", 0) + 1
+        return
     if o[0] != "ok":
         ctx.fail(top, "raises:" + err_kind(o), f"valid input raised/timed out: {o[1]}", {**rep, "impl": o})
         ctx.case(["vrp", case], False)
@@ -533,7 +550,7 @@ def run_cases(ctx, cases):
     outs = run_pool(impl, cases, timeout=60.0)
     reqs, meta = [], []
     for c, o in zip(cases, outs):
-        if o[0] != "ok" or (c["kind"] == "js" and c.get("malformed")):
+        if o[0] != "ok" or c.get("malformed") or c.get("excluded"):
             meta.append(None)
             continue
         if c["kind"] == "js":
